@@ -112,35 +112,40 @@ def points (j : Json) : Except String Json := do
   | "cell2grid" => pure <| jPts ((← getPts j "pts").map g.cellToGrid)
   | "grid2cell" => pure <| jPts ((← getPts j "pts").map g.gridToCell)
   | "grid2cart" => pure <| jPts ((← getPts j "pts").map g.toCartesian)
-  | "cell2cart" => pure <| jPts ((← getPts j "pts").map fun c => g.toCartesian (g.cellToGrid c))
+  | "cell2cart" => pure <| jPts ((← getPts j "pts").map g.cellToCartesian)
   | "cart2grid" =>
     -- "radii": the values of the external hypot/norm (harness-computed), validated against r2
     let pts ← getPts j "pts"
     let radii ← fldQs j "radii"
     let r2 := pts.map g.radiusSq
     let gr := (pts.zip radii).map fun (x, r) => g.fromCartesian r x
-    pure <| Json.mkObj [("r2", jQs r2), ("grid", jPts gr), ("cell", jPts (gr.map g.gridToCell)),
-      ("contains", toJson (gr.map g.containsGrid))]
+    let pr := pts.zip radii
+    pure <| Json.mkObj [("r2", jQs r2), ("grid", jPts gr),
+      ("cell", jPts (pr.map fun (x, r) => g.cartesianToCell r x)),
+      ("contains", toJson (pr.map fun (x, r) => g.containsCartesian r x))]
   | "contains_grid" => pure <| toJson ((← getPts j "pts").map g.containsGrid)
-  | "contains_cell" => pure <| toJson ((← getPts j "pts").map (containsCell g.shape))
+  | "contains_cell" => pure <| toJson ((← getPts j "pts").map g.containsCellPoint)
   | "normalize" =>
     let reflect ← fldB j "reflect"
     pure <| jPts ((← getPts j "pts").map (g.normalizePoint reflect))
   | "diff_cart" =>
     let p1 ← getPts j "p1"
     let p2 ← getPts j "p2"
-    let d := (p1.zip p2).map fun (a, b) => g.differenceVector a b
-    pure <| Json.mkObj [("diff", jPts d), ("dist2", jQs (d.map normSq))]
+    let pr := p1.zip p2
+    pure <| Json.mkObj [("diff", jPts (pr.map fun (a, b) => g.differenceVector a b)),
+      ("dist2", jQs (pr.map fun (a, b) => g.distSq a b))]
   | "diff_grid" =>
     let p1 ← getPts j "p1"
     let p2 ← getPts j "p2"
-    let d := (p1.zip p2).map fun (a, b) => g.differenceVectorGrid a b
-    pure <| Json.mkObj [("diff", jPts d), ("dist2", jQs (d.map normSq))]
+    let pr := p1.zip p2
+    pure <| Json.mkObj [("diff", jPts (pr.map fun (a, b) => g.differenceVectorGrid a b)),
+      ("dist2", jQs (pr.map fun (a, b) => g.distSqGrid a b))]
   | "diff_cell" =>
     let p1 ← getPts j "p1"
     let p2 ← getPts j "p2"
-    let d := (p1.zip p2).map fun (a, b) => g.differenceVectorGrid (g.cellToGrid a) (g.cellToGrid b)
-    pure <| Json.mkObj [("diff", jPts d), ("dist2", jQs (d.map normSq))]
+    let pr := p1.zip p2
+    pure <| Json.mkObj [("diff", jPts (pr.map fun (a, b) => g.differenceVectorCell a b)),
+      ("dist2", jQs (pr.map fun (a, b) => g.distSqCell a b))]
   | "random_cart" =>
     -- {"b": boundary distance, "us": [[u per axis]..]} -> points
     let b ← fldQ j "b"
